@@ -1,7 +1,7 @@
 (* C01 — Result models accept and preserve every conformant response.  Property theorems only. *)
 From Coq Require Import List String Ascii Bool ZArith.
 From AC Require Import Base.Strs Base.Sexp Base.Json Gql.Schema Gql.Exec Py.Ann Py.Pydantic
-     Model.Names Model.Results Proofs.ResultsP.
+     Model.Names Model.Results Proofs.ResultsP Proofs.ResultsRunP Proofs.ResultsAbsP Proofs.ResultsObjP Proofs.ResultsMixP.
 Import ListNotations.
 Local Open Scope string_scope.
 Local Open Scope list_scope.
@@ -20,6 +20,158 @@ Definition C01_preserves_full : Prop :=
     all_classes fuel C S frs (DOp kind name mixins sels) = Ok cls ->
     conf_op fuel S frs root sels j = true ->
     covers fuel cls (AClass (pascal_s name)) j = true.
+
+(* ---- proved (object-level refinement, sub-language op_ok): selection sets of fields (aliases,
+        @skip/@include flags, __typename), unconditional inline fragments and unpacked fragment spreads
+        whose type condition is the object type itself or one of its interfaces / unions (exactly those
+        that resolve and collect flatten alike: flatten, C01_flattenings_agree), leaf fields of scalar /
+        enum type, composite fields of OBJECT type and (with cov = true) of INTERFACE / UNION type (abs_ok:
+        __typename selected directly, inline fragments only, every possible runtime type's variant again
+        in the sub-language) nested to any depth, any list / non-null wrappers;
+        pairwise distinct response keys per flattened selection set; no Python field name (when it differs from its response key) equal to another
+        response key of the same set.  Ghost-output guards: no class skipped by the _public_names check
+        (third component of op_parse = false), no generated class called BaseModel.
+        The classes are all_classes' (operation module + fragments module).
+        Fuel: conformance at ANY fuel fc; validation at every fuel n >= fuel + 2 (the generator's fuel). ---- *)
+Theorem C01_accepts_partial :
+  forall C S frs fuel kind name sels root own pub' cls g cov fc j n,
+    root_type_name S kind = Ok root ->
+    op_parse fuel C S frs kind name [] sels = Ok (own, pub', false) ->
+    all_classes fuel C S frs (DOp kind name [] sels) = Ok cls ->
+    op_ok g cov C S frs root sels = true -> no_basemodel own = true ->
+    conf_op fc S frs root sels j = true ->
+    n >= fuel + 2 ->
+    accepts n cls (schema_enums S) (AClass (pascal_s name)) j = true.
+Proof. exact op_accepts. Qed.
+Print Assumptions C01_accepts_partial.
+
+(* preservation: additionally pairwise distinct Python field names per selection set (op_ok _ true) and
+   a payload in which no object repeats a key (jwf; true of every parsed JSON document) *)
+Theorem C01_preserves_partial :
+  forall C S frs fuel kind name sels root own pub' cls g fc j n,
+    root_type_name S kind = Ok root ->
+    op_parse fuel C S frs kind name [] sels = Ok (own, pub', false) ->
+    all_classes fuel C S frs (DOp kind name [] sels) = Ok cls ->
+    op_ok g true C S frs root sels = true -> no_basemodel own = true ->
+    conf_op fc S frs root sels j = true -> jwf j = true ->
+    n >= fuel + 2 ->
+    covers n cls (AClass (pascal_s name)) j = true.
+Proof. exact op_covers. Qed.
+Print Assumptions C01_preserves_partial.
+
+(* ---- proved: acceptance with fragment spreads used as MIXIN base classes (sub-language op_okM =
+        op_ok + spreads the generator turns into base classes: unconditional, fragment on the same type,
+        no @mixin on the fragment, the fragment's own selection set again in the sub-language, mixins of
+        mixins to any depth; the response keys of the whole object — own fields and all inherited ones —
+        pairwise distinct and disjoint from the aliased Python names).  Ghost-output guards on all_classes'
+        table: class names pairwise distinct, none called BaseModel, no skip in the operation's and in any
+        fragment's generation.  Validation fuel n >= F + g + 2 (F: generator fuel, g: the guard's fuel, which
+        bounds nesting and mixin depth). ---- *)
+Theorem C01_accepts_partial_mixins :
+  forall C S frs F kind name sels root own pub' cls g cov fc j n,
+    root_type_name S kind = Ok root ->
+    op_parse F C S frs kind name [] sels = Ok (own, pub', false) ->
+    all_classes F C S frs (DOp kind name [] sels) = Ok cls ->
+    op_okM g cov C S frs root sels = true ->
+    nodupb (map c_name cls) = true -> no_basemodel cls = true -> frag_no_skip F C S frs = true ->
+    conf_op fc S frs root sels j = true ->
+    n >= F + g + 2 ->
+    accepts n cls (schema_enums S) (AClass (pascal_s name)) j = true.
+Proof. exact op_accepts_mix. Qed.
+Print Assumptions C01_accepts_partial_mixins.
+
+(* per class, with everything it inherits (mro_fields) *)
+Theorem C01_class_with_mixins_accepts :
+  forall C S frs F cls cov,
+    NoDup (map c_name cls) -> no_basemodel cls = true ->
+    (forall fm, In fm frs -> unpack_fragment S fm None = false ->
+       exists out pub', parse_type_def F C S frs [] (pascal_s (fr_name fm)) (fr_on fm) (fr_sel fm) false
+                                        (fr_mixins fm) None = Ok (out, pub', false) /\ incl out cls) ->
+    forall g fuel pub cn rt r sels at_ tv top nested out pub' k l N kv fc,
+      fuel <= F -> parse_type_def fuel C S frs pub cn r sels at_ [] tv = Ok (out, pub', false) ->
+      sels_okM g cov C S frs top nested rt r sels = true -> tv_ok nested rt tv ->
+      (at_ = true -> has_typename sels = true) -> table_ok cls out ->
+      collect k S frs rt false sels = Some l -> incl l N -> amb C S frs N rt kv fc ->
+      class_good S F cls g cn kv.
+Proof. exact mix_main. Qed.
+Print Assumptions C01_class_with_mixins_accepts.
+
+(* the same at the level of one generated class (any nesting depth below it), for any class table that
+   resolves the generated names to the generated classes *)
+Theorem C01_object_accepts :
+  forall C S frs fuel g cov nested pub cn rt r sels at_ tv out pub' cs fc kv n,
+    parse_type_def fuel C S frs pub cn r sels at_ [] tv = Ok (out, pub', false) ->
+    sels_ok g cov C S frs nested rt r sels = true -> tv_ok nested rt tv ->
+    (at_ = true -> has_typename sels = true) -> table_ok cs out ->
+    conf_obj_with (conf_val fc S frs) S rt (collect_scopes fc S frs rt [(false, sels)]) kv = true ->
+    n >= fuel + 2 ->
+    accepts n cs (schema_enums S) (AClass cn) (JObj kv) = true.
+Proof. exact obj_accepts. Qed.
+Print Assumptions C01_object_accepts.
+
+Theorem C01_object_covers :
+  forall C S frs fuel g nested pub cn rt r sels at_ tv out pub' cs fc kv n,
+    parse_type_def fuel C S frs pub cn r sels at_ [] tv = Ok (out, pub', false) ->
+    sels_ok g true C S frs nested rt r sels = true -> tv_ok nested rt tv ->
+    (at_ = true -> has_typename sels = true) -> table_ok cs out ->
+    conf_obj_with (conf_val fc S frs) S rt (collect_scopes fc S frs rt [(false, sels)]) kv = true ->
+    jwf (JObj kv) = true ->
+    n >= fuel + 2 ->
+    covers n cs (AClass cn) (JObj kv) = true.
+Proof. exact obj_covers. Qed.
+Print Assumptions C01_object_covers.
+
+(* the ingredient for abstract positions: among the classes generated for the related types of an
+   interface / union typed field, the discriminated union picks the class of the variant of the runtime
+   type (the one related type whose typename literal contains it) *)
+Theorem C01_variant_literal :
+  forall S base sub rel rt,
+    (exists ifs fs, lookup_type S base = Some (DInterface ifs fs)) \/
+    (exists ms, lookup_type S base = Some (DUnion ms) /\ forallb (is_object S) ms = true) ->
+    mem base (possible_types S base) = false ->
+    map r_type rel = abs_names S base sub ->
+    In rt (possible_types S base) ->
+    let t0 := variant (abs_names S base sub) base rt in
+    In t0 (abs_names S base sub) /\ In rt (typename_values S rel t0) /\
+    (forall t, In t (abs_names S base sub) -> In rt (typename_values S rel t) -> t = t0).
+Proof. exact tv_variant. Qed.
+Print Assumptions C01_variant_literal.
+
+Theorem C01_union_picks_variant :
+  forall (mro : string -> option (list pfield)) (cname : string -> string)
+         (tvs : string -> list string) names rt t0,
+    In t0 names -> In rt (tvs t0) ->
+    (forall t, In t names -> In rt (tvs t) -> t = t0) ->
+    (forall t, In t names -> exists pfl, mro (cname t) = Some pfl /\
+         forall pf vs, In pf pfl -> p_ann pf = ALit vs -> vs = sort_strings (tvs t)) ->
+    (exists pfl0, mro (cname t0) = Some pfl0 /\
+         typename_literal (last_wins pfl0) = Some (sort_strings (tvs t0))) ->
+    union_pick mro (map (fun t => AClass (cname t)) names) rt = Some (AClass (cname t0)).
+Proof. exact union_pick_variant. Qed.
+Print Assumptions C01_union_picks_variant.
+
+(* without a skipped class the generated class names are pairwise distinct (so the class table of the
+   module resolves every generated name to the class generated for it) *)
+Theorem C01_class_names_distinct :
+  forall C S frs fuel cn tn sels at_ eb tv out pub',
+    parse_type_def fuel C S frs [] cn tn sels at_ eb tv = Ok (out, pub', false) ->
+    pub' = map c_name out /\ NoDup (map c_name out).
+Proof.
+  intros C S frs fuel cn tn sels at_ eb tv out pub' H. apply ptd_names in H. destruct H as [H1 H2].
+  simpl in H1. split; [exact H1 | rewrite <- H1; apply H2; constructor].
+Qed.
+Print Assumptions C01_class_names_distinct.
+
+(* the generator's _resolve_selection_set (against root r) and the executor's CollectFields (runtime
+   object type rt) flatten a selection set accepted by [flatten] to the same field list, with no mixin *)
+Theorem C01_flattenings_agree :
+  forall S frs rt g r sels fns,
+    flatten g S frs rt r sels = Some fns ->
+    forall f, f >= g ->
+      resolve f S frs sels r = Ok (fns, []) /\
+      (forall under, collect f S frs rt under sels = Some (map (node_of_fnode under) fns)).
+Proof. exact flatten_both_ex. Qed.
+Print Assumptions C01_flattenings_agree.
 
 (* ---- proved: every nullability / list wrapper, at any depth ---- *)
 Theorem C01_wrappers_accept :
@@ -102,6 +254,40 @@ Proof.
 Qed.
 Print Assumptions C01_preserves_refuted_foreign_condition.
 
+(* F30: a fragment on an interface that itself spreads a fragment on a sub type: the nested spread yields
+   neither a variant class nor a field of the base class, so its keys are not covered (but accepted) *)
+Definition S30 : schema :=
+  {| s_types := [("Query", DObject [] [("named", TNamed "Named")]);
+                 ("Named", DInterface [] [("name", TNamed "String")]);
+                 ("A", DObject ["Named"] [("name", TNamed "String"); ("x", TNamed "Int")])] ++ std;
+     s_query := Some "Query"; s_mutation := None; s_subscription := None |}.
+Definition F30 : list fragdef :=
+  [{| fr_name := "NF"; fr_on := "Named"; fr_mixins := [];
+      fr_sel := [SField None "name" false [] None; SSpread "AF" false] |};
+   {| fr_name := "AF"; fr_on := "A"; fr_mixins := []; fr_sel := [SField None "x" false [] None] |}].
+Theorem C01_preserves_refuted_subtype_spread : ~ C01_preserves_full.
+Proof.
+  intro H.
+  specialize (H 30 C0 S30 F30 "query" "Q" []
+                [SField None "named" false []
+                   (Some [SField None "__typename" false [] None; SSpread "NF" false])]
+                "Query" _
+                (JObj [("named", JObj [("__typename", JStr "A"); ("name", JStr "n"); ("x", JInt 1)])])
+                eq_refl eq_refl eq_refl).
+  vm_compute in H. discriminate.
+Qed.
+Print Assumptions C01_preserves_refuted_subtype_spread.
+
+(* the same input IS accepted: only preservation fails *)
+Example C01_F30_accepted :
+  exists cls,
+    all_classes 30 C0 S30 F30 (DOp "query" "Q" []
+       [SField None "named" false []
+          (Some [SField None "__typename" false [] None; SSpread "NF" false])]) = Ok cls /\
+    accepts 30 cls (schema_enums S30) (AClass "Q")
+            (JObj [("named", JObj [("__typename", JStr "A"); ("name", JStr "n"); ("x", JInt 1)])]) = true.
+Proof. eexists. split; [vm_compute; reflexivity|]. vm_compute. reflexivity. Qed.
+
 (* ---- non-vacuity: a nested, aliased, abstract selection that IS accepted and covered ---- *)
 Example C01_full_hypotheses_satisfiable :
   exists cls,
@@ -116,3 +302,104 @@ Example C01_full_hypotheses_satisfiable :
                  SInline (Some "Dog") false [SField (Some "petName") "name" false [] None]])] j = true /\
     accepts 30 cls (schema_enums S4) (AClass "Q") j = true /\ covers 30 cls (AClass "Q") j = true.
 Proof. eexists. split; [vm_compute; reflexivity|]. vm_compute. repeat split. Qed.
+
+(* ---- non-vacuity of the partial theorems: nested (two levels of objects), aliased, list-wrapped,
+        conditional fields, enum, __typename literal, a spread of a fragment on an interface and nested
+        inline fragments (flattened), an interface-typed field with a variant (Node: base class + User class)
+        and a union-typed field (Hit = User | Bot) ---- *)
+Definition SX : schema :=
+  {| s_types := [("Query", DObject [] [("user", TNamed "User");
+                                       ("users", TNonNull (TList (TNonNull (TNamed "User"))));
+                                       ("nodes", TList (TNamed "Node"));
+                                       ("found", TNamed "Hit")]);
+                 ("Bot", DObject ["Node"] [("id", TNonNull (TNamed "ID")); ("version", TNamed "Int")]);
+                 ("Hit", DUnion ["User"; "Bot"]);
+                 ("Node", DInterface [] [("id", TNonNull (TNamed "ID"))]);
+                 ("User", DObject ["Node"] [("id", TNonNull (TNamed "ID")); ("fullName", TNamed "String");
+                                      ("role", TNonNull (TNamed "Role")); ("address", TNamed "Address");
+                                      ("tags", TList (TNamed "String"))]);
+                 ("Address", DObject [] [("city", TNonNull (TNamed "String")); ("zip", TNamed "Int")]);
+                 ("Role", DEnum ["ADMIN"; "USER"])] ++ std;
+     s_query := Some "Query"; s_mutation := None; s_subscription := None |}.
+Definition selsX : list sel :=
+  [SField (Some "people") "users" false []
+     (Some [SField None "__typename" false [] None; SSpread "NodeBits" false;
+            SInline (Some "User") false
+              [SField (Some "name") "fullName" true [] None;
+               SInline (Some "Node") false [SField None "role" false [] None]];
+            SField (Some "homeAddress") "address" false []
+              (Some [SField None "city" false [] None; SField None "zip" true [] None]);
+            SField None "tags" false [] None]);
+   SField None "user" true [] (Some [SField None "id" false [] None]);
+   SField None "nodes" false []
+     (Some [SField None "__typename" false [] None; SField None "id" false [] None;
+            SInline (Some "User") false [SField None "role" false [] None]]);
+   SField None "found" false []
+     (Some [SField None "__typename" false [] None;
+            SInline (Some "Bot") false [SField (Some "v") "version" false [] None];
+            SInline (Some "User") false [SField None "id" false [] None]])].
+Definition frsX : list fragdef :=
+  [{| fr_name := "NodeBits"; fr_on := "Node"; fr_mixins := [];
+      fr_sel := [SField None "id" false [] None] |}].
+Definition jX : json :=
+  JObj [("people", JArr [JObj [("__typename", JStr "User"); ("id", JStr "1"); ("role", JStr "ADMIN");
+                               ("homeAddress", JObj [("city", JStr "X")]);
+                               ("tags", JArr [JStr "a"; JNull])];
+                         JObj [("__typename", JStr "User"); ("id", JStr "2"); ("name", JNull);
+                               ("role", JStr "USER"); ("homeAddress", JNull); ("tags", JNull)]]);
+        ("nodes", JArr [JObj [("__typename", JStr "Bot"); ("id", JStr "b1")];
+                        JObj [("__typename", JStr "User"); ("id", JStr "u1"); ("role", JStr "USER")]; JNull]);
+        ("found", JObj [("__typename", JStr "Bot"); ("v", JInt 3)])].
+
+Example C01_partial_hypotheses_satisfiable :
+  exists own pub' cls,
+    root_type_name SX "query" = Ok "Query" /\
+    op_parse 10 C0 SX frsX "query" "GetPeople" [] selsX = Ok (own, pub', false) /\
+    all_classes 10 C0 SX frsX (DOp "query" "GetPeople" [] selsX) = Ok cls /\
+    op_ok 10 true C0 SX frsX "Query" selsX = true /\ no_basemodel own = true /\
+    conf_op 10 SX frsX "Query" selsX jX = true /\ jwf jX = true /\
+    List.length own = 8 /\
+    accepts 11 cls (schema_enums SX) (AClass (pascal_s "GetPeople")) jX = true /\
+    covers 11 cls (AClass (pascal_s "GetPeople")) jX = true.
+Proof.
+  do 3 eexists.
+  split; [reflexivity|].
+  split; [vm_compute; reflexivity|].      (* instantiates own, pub' *)
+  split; [vm_compute; reflexivity|].      (* instantiates cls *)
+  vm_compute. repeat split.
+Qed.
+
+(* ---- non-vacuity of C01_accepts_partial_mixins: a mixin whose fragment spreads another mixin and
+        contains a nested object ---- *)
+Definition frsM : list fragdef :=
+  [{| fr_name := "UserBits"; fr_on := "User"; fr_mixins := [];
+      fr_sel := [SField None "fullName" true [] None; SSpread "UserMore" false] |};
+   {| fr_name := "UserMore"; fr_on := "User"; fr_mixins := [];
+      fr_sel := [SField (Some "homeAddress") "address" false [] (Some [SField None "city" false [] None])] |}].
+Definition selsM : list sel :=
+  [SField None "users" false []
+     (Some [SField None "__typename" false [] None; SField None "id" false [] None;
+            SSpread "UserBits" false; SField None "role" false [] None])].
+Definition jM : json :=
+  JObj [("users", JArr [JObj [("__typename", JStr "User"); ("id", JStr "1"); ("fullName", JStr "A");
+                              ("homeAddress", JObj [("city", JStr "X")]); ("role", JStr "ADMIN")];
+                        JObj [("__typename", JStr "User"); ("id", JStr "2");
+                              ("homeAddress", JNull); ("role", JStr "USER")]])].
+
+Example C01_mixins_hypotheses_satisfiable :
+  exists own pub' cls,
+    root_type_name SX "query" = Ok "Query" /\
+    op_parse 10 C0 SX frsM "query" "GetUsers" [] selsM = Ok (own, pub', false) /\
+    all_classes 10 C0 SX frsM (DOp "query" "GetUsers" [] selsM) = Ok cls /\
+    op_okM 10 true C0 SX frsM "Query" selsM = true /\
+    nodupb (map c_name cls) = true /\ no_basemodel cls = true /\ frag_no_skip 10 C0 SX frsM = true /\
+    conf_op 10 SX frsM "Query" selsM jM = true /\
+    map c_bases cls = [["BaseModel"]; ["UserBits"]; ["UserMore"]; ["BaseModel"]; ["BaseModel"]] /\
+    accepts 22 cls (schema_enums SX) (AClass (pascal_s "GetUsers")) jM = true.
+Proof.
+  do 3 eexists.
+  split; [reflexivity|].
+  split; [vm_compute; reflexivity|].
+  split; [vm_compute; reflexivity|].
+  vm_compute. repeat split.
+Qed.
